@@ -13,22 +13,28 @@ import KafkaVerif.Model.ReaderFront
 import KafkaVerif.Gen.DecoderFacts
 import KafkaVerif.Lemmas.ReaderFront
 import KafkaVerif.Lemmas.ByteLayout
+import KafkaVerif.Lemmas.ReaderLoopLTS
+import KafkaVerif.Lemmas.PullReader
+import KafkaVerif.Lemmas.ReaderWorld
+import KafkaVerif.Lemmas.ReaderSystem
+import KafkaVerif.Lemmas.ByteReader
 
 namespace KV.C02
 
 /-! ## R. Regenerated tie: the structural facts of the source the model relies on
 
-`Gen/DecoderFacts.lean` is re-extracted (go/ast, `go/extract/decoder.go`) from message_reader.go, batch.go, conn.go and
+`Gen/DecoderFacts.lean` is re-extracted (go/ast, `go/extract/decoder`; renderings are alpha-normalised: receiver `$r`,
+locals `$1`, `$2`, … — renaming a receiver, parameter or local does not change a fact) from message_reader.go, batch.go, conn.go and
 reader.go of the tree under test on every run; the theorems below compare it with what the model assumes, so an
 edit of one of these places breaks `lake build` (and the theorems of §1–§3 are re-stated for `currentVariant`). -/
 
 /-- which model variant a set of source facts describes -/
 def variantOfFacts (f : Gen.DecoderFacts) : Option Variant :=
   if f.skipEmptyLoop ∧ f.batchEndOnEmpty ∧ f.batchEndOnLast ∧ f.batchEndApplied ∧
-     f.jumpGuard = "errors.Is(batch.err, io.EOF) && batch.msgs.lengthRemain == 0 && batch.lastOffset >= batch.offset" ∧
+     f.jumpGuard = "errors.Is($r.err, io.EOF) && $r.msgs.lengthRemain == 0 && $r.lastOffset >= $r.offset" ∧
      f.oorSeeksConn then some .fixed
   else if !f.skipEmptyLoop ∧ !f.batchEndOnEmpty ∧ !f.batchEndOnLast ∧ !f.batchEndApplied ∧
-     f.jumpGuard = "errors.Is(batch.err, io.EOF) && batch.msgs.lengthRemain == 0 && batch.lastOffset != -1" ∧
+     f.jumpGuard = "errors.Is($r.err, io.EOF) && $r.msgs.lengthRemain == 0 && $r.lastOffset != -1" ∧
      !f.oorSeeksConn then some .legacy
   else none
 
@@ -53,8 +59,37 @@ of ReadMessage compares with the conn offset strictly, `highWaterMark == offset`
 the batch offset into the conn -/
 theorem decoder_statements :
     Gen.decoderFacts.nextOffsetPlus = 1 ∧ Gen.decoderFacts.readerNextOffsetPlus = 1 ∧
-    Gen.decoderFacts.skipBelow = "batch.conn != nil && offset < batch.connOffset()" ∧
+    Gen.decoderFacts.skipBelow = "$r.conn != nil && $1 < $r.connOffset()" ∧
     Gen.decoderFacts.emptyWhenHwmEqOffset = true ∧ Gen.decoderFacts.closeStoresOffset = true := by decide
+
+/-- the facts of `(*reader).run` / `initialize` the loop LTS (Model/ReaderLoopLTS.lean) transcribes: the sentinel values,
+the resolution switch and the seek to the resolved offset, `attempt = 0; offset = start` after a successful initialize,
+`errcount++` at the end of an iteration, and the action of every simple error class of readLoop's switch
+(continue with errcount 0 / close and leave the loop / close and return / sendError and leave the loop) -/
+theorem reader_loop_facts :
+    Gen.decoderFacts.firstOffsetConst = -2 ∧ Gen.decoderFacts.lastOffsetConst = -1 ∧
+    (∀ first last : Int, resolve Gen.decoderFacts.firstOffsetConst first last = first ∧
+                         resolve Gen.decoderFacts.lastOffsetConst first last = last) ∧
+    Gen.decoderFacts.initResolve = "switch { case $1 == FirstOffset: $1 = $2 case $1 == LastOffset: $1 = $3 case $1 < $2: $1 = $2 }" ∧
+    Gen.decoderFacts.initSeeksResolved = true ∧ Gen.decoderFacts.runResetsAttempt = true ∧
+    Gen.decoderFacts.runErrcountInc = true ∧
+    Gen.decoderFacts.loopBranches = "$1 == nil -> errcount=0,continue | errors.Is($1, NotLeaderForPartition) -> close,break-loop | errors.Is($1, OffsetOutOfRange) ->  | errors.Is($1, RequestTimedOut) -> errcount=0,continue | errors.Is($1, UnknownTopicOrPartition) -> close,break-loop | errors.Is($1, context.Canceled) -> close,return | errors.Is($1, errUnknownCodec) -> sendError,break-loop | errors.Is($1, io.EOF) -> errcount=0,continue | errors.Is($1, io.ErrNoProgress) -> close,break-loop | default -> " := by
+  refine ⟨by decide, by decide, ?_, rfl, rfl, rfl, rfl, rfl⟩
+  intro first last
+  constructor <;> simp [resolve, Gen.decoderFacts]
+
+/-- **the text the statement-level models were written against**: `(*messageSetReader).readMessage` and everything it
+reaches in message_reader.go, read.go and discard.go — `readHeader`, `readMessageV1`, `readMessageV2`, `markRead`,
+`unwindStack`, `runFunc`, `readMessageHeader`, `extractOffset`, the `remain` wrappers, `peekRead`, `readInt8…64`,
+`readVarInt`, `readBytesWith`, `readArrayLen`, `readNewBytes`, `readNewString`, `discardN`, `discardBytes`,
+`compression`, `badMagic` — each once, after the normalisation pass (helpers unknown to the model inlined, single-use
+locals folded), with the error plumbing (`if err = f(); err != nil { return }` ↦ `must(f())`), the debug output and
+value-less `var` declarations removed, receiver `$r`, locals `$1…` per function, and the **functions themselves**
+`$f1…` in order of first occurrence (renaming a function or method of these files changes nothing; changing a body does).
+`Model/PullReader.lean` follows `readMessage`, readHeader, readMessageV1, readMessageV2, markRead / unwindStack;
+`Model/ByteReader.lean` follows the byte-level rest. -/
+theorem decoder_text :
+    Gen.decoderFacts.decoderText = "readMessage { if $r.empty { $1 = RequestTimedOut return } for { must($r.$f1()) if $r.header.magic != 2 || $r.count != 0 { break } } switch $r.header.magic { case 0, 1: $2, $3, $4, $1 = $r.$f2($5, $6, $7) $8 = -1 case 2: $2, $8, $3, $4, $1 = $r.$f3($5, $6, $7) default: $1 = $r.header.$f4() } return } ;; $f1 { if $r.count > 0 { return } $r.header = messagesHeader{} must($r.$f5(&$r.header.firstOffset)) must($r.$f6(&$r.header.length)) must($r.$f6(&$1)) must($r.$f7(&$r.header.magic)) switch $r.header.magic { case 0: $r.header.crc = $1 must($r.$f7(&$r.header.v1.attributes)) $r.count = 1 $r.lengthRemain = 1 case 1: $r.header.crc = $1 must($r.$f7(&$r.header.v1.attributes)) must($r.$f5(&$r.header.v1.timestamp)) $r.count = 1 $r.lengthRemain = 1 case 2: $r.header.v2.leaderEpoch = $1 must($r.$f6(&$r.header.crc)) must($r.$f8(&$r.header.v2.attributes)) must($r.$f6(&$r.header.v2.lastOffsetDelta)) must($r.$f5(&$r.header.v2.firstTimestamp)) must($r.$f5(&$r.header.v2.lastTimestamp)) must($r.$f5(&$r.header.v2.producerID)) must($r.$f8(&$r.header.v2.producerEpoch)) must($r.$f6(&$r.header.v2.baseSequence)) must($r.$f6(&$r.header.v2.count)) $r.count = int($r.header.v2.count) $r.lengthRemain = int($r.header.length) - 49 if $r.header.v2.attributes&controlBatchMask != 0 { $r.count = 0 $r.batchEnd = $r.header.firstOffset + int64($r.header.v2.lastOffsetDelta) + 1 if $r.lengthRemain > 0 { must($r.$f9($r.lengthRemain)) } } if $r.count == 0 { $r.batchEnd = $r.header.firstOffset + int64($r.header.v2.lastOffsetDelta) + 1 } default: $2 = $r.header.$f4() return } return } ;; $f2 { for $r.readerStack != nil { if $r.remain == 0 { $r.readerStack = $r.parent continue } must($r.$f1()) $1 = $r.header.firstOffset $2 = $r.header.v1.timestamp $3 = must($r.header.$f10()) if $3 != nil { must($r.$f9(4)) $r.decompressed.Reset() must($r.$f11(func($4 *bufio.Reader, $5 int, $6 int) ($7 int, $8 error) { $r.decompressed.Grow(4 * $6) $9 := io.LimitedReader{R: $4, N: int64($6)} $10 := $3.NewReader(&$9) _, $8 = $r.decompressed.ReadFrom($10) $7 = $5 - ($6 - int($9.N)) $10.Close() return })) $1 = must($f12($1, $r.decompressed.Bytes())) $11 := $r.header.magic == 1 && $r.header.v1.attributes&timestampTypeMask != 0 $r.$f13() $r.readerStack = &readerStack{reader: bufio.NewReaderSize($r.decompressed, 0), remain: $r.decompressed.Len(), base: $1, parent: $r.readerStack, logAppendTime: $2, hasLogAppendTime: $11} continue } $1 += $r.base if $r.hasLogAppendTime { $2 = $r.logAppendTime } if $1 < $12 { must($r.$f14()) must($r.$f14()) $r.$f13() continue } must($r.$f11($13)) must($r.$f11($14)) $r.$f13() return } $8 = errShortRead return } ;; $f3 { must($r.$f1()) if $r.count == int($r.header.v2.count) { $1 = must($r.header.$f10()) if $1 != nil { $2 := int($r.header.length - 49) if $2 > $r.remain { $3 = errShortRead return } if $2 < 0 { $3 = fmt.Errorf(\"batch remain < 0 (%d)\", $2) return } $r.decompressed.Reset() $r.decompressed.Grow(4 * $2) $4 := io.LimitedReader{R: $r.reader, N: int64($2)} $5 := $1.NewReader(&$4) _, $3 = $r.decompressed.ReadFrom($5) $5.Close() if $3 != nil { return } $r.remain -= $2 - int($4.N) $r.readerStack = &readerStack{reader: bufio.NewReaderSize($r.decompressed, 0), remain: $r.decompressed.Len(), base: -1, parent: $r.readerStack, header: $r.header, count: $r.count} $r.readerStack.parent.count = 0 } } $6 := $r.remain must($r.$f15(&$7)) $8 := $6 - $r.remain must($r.$f7(&$9)) must($r.$f15(&$10)) $11 = $r.header.v2.firstTimestamp + $10 if $r.header.v2.attributes&timestampTypeMask != 0 { $11 = $r.header.v2.lastTimestamp } must($r.$f15(&$12)) $13 = $r.header.firstOffset + $12 must($r.$f16($14)) must($r.$f16($15)) must($r.$f15(&$16)) if $16 > 0 { $17 = make([]Header, $16) for $18 := range $17 { must($r.$f17(&$17[$18])) } } $19 = $r.header.firstOffset + int64($r.header.v2.lastOffsetDelta) $r.lengthRemain -= int($7) + $8 if $r.count == 1 { $r.batchEnd = $19 + 1 } $r.$f13() return } ;; $f4 { return fmt.Errorf(\"unsupported magic byte %d in header\", $r.magic) } ;; $f5 { $r.remain, $1 = $f18($r.reader, $r.remain, $2) return } ;; $f6 { $r.remain, $1 = $f19($r.reader, $r.remain, $2) return } ;; $f7 { $r.remain, $1 = $f20($r.reader, $r.remain, $2) return } ;; $f8 { $r.remain, $1 = $f21($r.reader, $r.remain, $2) return } ;; $f9 { $r.remain, $1 = $f22($r.reader, $r.remain, $2) return } ;; $f10 { const $1 = 0x07 switch $r.magic { case 0, 1: $2 = $r.v1.attributes & $1 case 2: $2 = int8($r.v2.attributes & $1) default: $3 = $r.$f4() return } if $2 != 0 { $4, $3 = resolveCodec($2) } return } ;; $f11 { $r.remain, $1 = $f23($r.reader, $r.remain, $2) return } ;; $f12 { $1, $2 := bufio.NewReader(bytes.NewReader($3)), len($3) for $2 > 0 { $2 = must($f18($1, $2, &$4)) $2 = must($f19($1, $2, &$5)) $2 = must($f22($1, $2, int($5))) } $4 = $6 - $4 return } ;; $f13 { if $r.count == 0 { panic(\"markRead: negative count\") } $r.count-- $r.$f24() } ;; $f14 { $r.remain, $1 = $f25($r.reader, $r.remain) return } ;; $f15 { $r.remain, $1 = $f26($r.reader, $r.remain, $2) return } ;; $f16 { must($r.$f15(&$1)) $r.remain = must($2($r.reader, $r.remain, int($1))) return } ;; $f17 { must($r.$f15(&$1)) $2.Key = must($r.$f27(int($1))) must($r.$f15(&$3)) $2.Value = must($r.$f28(int($3))) return nil } ;; $f18 { return $f29($1, $2, 8, func($3 []byte) { *$4 = makeInt64($3) }) } ;; $f19 { return $f29($1, $2, 4, func($3 []byte) { *$4 = makeInt32($3) }) } ;; $f20 { return $f29($1, $2, 1, func($3 []byte) { *$4 = makeInt8($3) }) } ;; $f21 { return $f29($1, $2, 2, func($3 []byte) { *$4 = makeInt16($3) }) } ;; $f22 { if $1 <= $2 { $1, $3 = $4.Discard($1) } else { $1, $3 = $4.Discard($2) if $3 == nil { $3 = errShortRead } } return $2 - $1, $3 } ;; $f23 { if $1, $2 = $f30($3, $1, &$4); $2 != nil { return $1, $2 } if $4 > $1 { return $1, errShortRead } return $5($3, $1, $4) } ;; $f24 { for $r.count == 0 { if $r.remain == 0 { if $r.parent != nil { $r.readerStack = $r.parent continue } } break } } ;; $f25 { return $f23($1, $2, func($1 *bufio.Reader, $2 int, $3 int) (int, error) { if $3 < 0 { return $2, nil } return $f22($1, $2, $3) }) } ;; $f26 { $1, _ := $2.Peek($2.Buffered()) $3 := uint64(0) $4 := uint(0) for { if len($1) > $5 { $1 = $1[:$5] } for $6, $7 := range $1 { if $7 < 0x80 { $3 |= uint64($7) << $4 *$8 = int64($3>>1) ^ -(int64($3) & 1) $9, $10 := $2.Discard($6 + 1) return $5 - $9, $10 } $3 |= uint64($7&0x7f) << $4 $4 += 7 } $9, _ := $2.Discard(len($1)) $5 -= $9 if $5 == 0 { return 0, errShortRead } if _, $10 := $2.Peek(1); $10 != nil { if errors.Is($10, io.EOF) { $10 = errShortRead } return $5, $10 } $1, _ = $2.Peek($2.Buffered()) } } ;; $f27 { $1, $r.remain, $2 = $f31($r.reader, $r.remain, $3) return } ;; $f28 { $1, $r.remain, $2 = readMessageBytes($r.reader, $r.remain, $3) return } ;; $f29 { if $1 > $2 { return $2, errShortRead } $3, $4 := $5.Peek($1) if $4 != nil { return $2, $4 } $6($3) return $f22($5, $2, $1) } ;; $f30 { if $1, $2 = $f19($3, $1, &$4); $2 != nil { return $1, $2 } *$5 = int($4) return $1, nil } ;; $f31 { $1, $2, $3 := $f32($4, $2, $5) return string($1), $2, $3 } ;; $f32 { if $1 > 0 { if $2 < $1 { $1 = $2 $3 = true } $4 = make([]byte, $1) $1, $5 = io.ReadFull($6, $4) $4 = $4[:$1] $2 -= $1 if $5 == nil && $3 { $5 = errShortRead } } return $4, $2, $5 }" := rfl
 
 /-! ## 0. The defects of the pinned code (`Variant.legacy`), kept as theorems about the legacy model
 
@@ -160,29 +195,115 @@ example : LWF 0 [.m 1 97 1 60, .w 1 100 90 [(0, 2), (2, 3)], .b2 101 104 false 3
 theorem unsafe_layout_counterexample :
     (readAll .fixed false 8 20 (responseTokens [.m 1 5 1 60, .b2 10 11 false 12 [(0, 2, 12)]] (-1))).2.2 = .desync := by decide
 
-/-- `single_fetch` about **bytes** for the sublanguage "untruncated message set of uncompressed v2 record batches":
-the bytes the reference encoder (`Spec/RecordBatch.lean`) produces for the batches `bs` tokenize
-(`Spec/ByteLayout.tokenizeSet`, proved to invert the encoder: `tokenizeSet_enc`) to a stream on which the decoder
-delivers exactly the stored records at or above `o`.  `crc` is any checksum function below 2³², `dg` any digest of
-the observable record fields. -/
-theorem single_fetch_bytes (crc : Bytes → Nat) (hcrc : ∀ b, crc b < RW.M32) (dg : Spec.RB.FrameV2 → Spec.RB.RecV2 → Nat)
-    (bs : List BBatch) (hframes : ∀ b ∈ bs, b.frame.WF) (nb : Int) (hnb : 0 ≤ nb) (hwf : LWF nb (layoutOf dg bs))
-    (o hwm : Int) (ho : 0 ≤ o) (hne : hwm ≠ o) (expired : Bool) :
-    ∃ toks, tokenizeSet crc dg bs.length (encSetV2 crc bs) = some toks ∧
-      (readAll .fixed expired o hwm toks).1 = (allRecords (layoutOf dg bs)).filter (fun r => o ≤ r.1) ∧
-      (readAll .fixed expired o hwm toks).2.2 ≠ .desync ∧
-      (∀ r ∈ allRecords (layoutOf dg bs), o ≤ r.1 → r.1 < (readAll .fixed expired o hwm toks).2.1 →
-        r ∈ (readAll .fixed expired o hwm toks).1) := by
-  refine ⟨allTokens (layoutOf dg bs), tokenizeSet_enc crc hcrc dg bs hframes _ (Nat.le_refl _), ?_⟩
-  have hsafe : Safe o (layoutOf dg bs) := by
-    apply safe_of_v2
-    intro it hit
-    simp only [layoutOf, List.mem_map] at hit
-    obtain ⟨b, _, rfl⟩ := hit
-    rfl
-  have h := single_fetch (layoutOf dg bs) nb hnb hwf o hwm ho hsafe hne (-1) expired
-  simp only [responseTokens, containedRecords, show ((-1 : Int) < 0) from by decide, if_true] at h
+/-- `single_fetch` about **bytes**, for everything the reference encoder (`Spec/RecordBatch.lean`, the published record
+batch / message set formats) can put into a message set: uncompressed and compressed v2 batches, v0/v1 messages and
+compressed wrappers (`BItem`), in any order, cut at any byte `n`.  The byte-level tokenizer (`Spec/ByteLayout.tokenize`:
+fixed headers when all their bytes are there, a record when its length prefix and body are there, a compressed
+payload / a message body when it is complete, else `cut`; checksums ignored like the Go decoder does) is proved to
+produce exactly the truncated token stream of the layout (`tokenize_items`); on it the decoder delivers exactly the
+stored records at or above `o` that lie completely within the first `n` bytes.
+Parameters: the compression codec as `enc`/`dec` with `dec ∘ enc = id` and non-empty output, checksum functions below
+2³², digests `dg2`/`dg1` of the observable fields. -/
+theorem single_fetch_bytes (c : TokCfg) (enc : Int → Bytes → Bytes) (hdec : ∀ k b, c.dec k (enc k b) = some b)
+    (hpos : ∀ k b, 0 < (enc k b).length) (h1 : ∀ b, c.crcs.ieee b < RW.M32) (h2 : ∀ b, c.crcs.castagnoli b < RW.M32)
+    (its : List BItem) (hitems : ∀ it ∈ its, it.WF c enc) (nb : Int) (hnb : 0 ≤ nb) (hwf : LWF nb (layoutOfItems c enc its))
+    (o hwm : Int) (ho : 0 ≤ o) (hsafe : Safe o (layoutOfItems c enc its)) (hne : hwm ≠ o) (expired : Bool) (n : Nat) :
+    let toks := tokenize c (n + 1) .hdr ((encItems c enc its).take n)
+    (readAll .fixed expired o hwm toks).1 = (contained (layoutOfItems c enc its) n).filter (fun r => o ≤ r.1) ∧
+    (readAll .fixed expired o hwm toks).2.2 ≠ .desync ∧
+    (∀ r ∈ allRecords (layoutOfItems c enc its), o ≤ r.1 → r.1 < (readAll .fixed expired o hwm toks).2.1 →
+      r ∈ (readAll .fixed expired o hwm toks).1) := by
+  have h := single_fetch (layoutOfItems c enc its) nb hnb hwf o hwm ho hsafe hne (n : Int) expired
+  have hc : ¬ ((n : Int) < 0) := by omega
+  simp only [responseTokens, containedRecords, hc, if_false, Int.toNat_natCast] at h
+  simp only [tokenize_items c enc hdec hpos h1 h2 its hitems n (n + 1) (by omega)]
   exact ⟨h.1, h.2.1, h.2.2.1⟩
+
+/-! ### below the tokens: the byte-level reads of read.go / discard.go / message_reader.go (Model/ByteReader.lean)
+
+`readVarInt`, `peekRead` + `readInt8…64`, `readNewBytes`, `discardN` with the `remain` accounting of messageSetReader,
+`runFunc`, `readMessageHeader`, and the record part of `readMessageV2`. -/
+
+/-- `record_bytes`: where the tokenizer of `single_fetch_bytes` decides "complete record → token `r2`, else `cut`" the Go
+code decides the same from the bytes: with the whole record inside what is left of the message set (`remain`) it reads
+the record's offset delta, timestamp delta, key, value and headers, consumes exactly the record and subtracts its size
+from `lengthRemain`; with the record cut anywhere by the end of the set every path ends in errShortRead (never a
+wrong message, never a read beyond the set). -/
+theorem record_bytes (rec : Spec.RB.RecV2) (rest : Bytes) (remain : Nat) :
+    ((Spec.RB.encRec rec).length ≤ remain →
+      BR.readRecordV2 ⟨Spec.RB.encRec rec ++ rest, remain⟩ = .ok (BR.viewOf rec, ⟨rest, remain - (Spec.RB.encRec rec).length⟩) ∧
+      Spec.RB.readRec ((Spec.RB.encRec rec ++ rest).take remain) = some (rec, rest.take (remain - (Spec.RB.encRec rec).length))) ∧
+    (remain < (Spec.RB.encRec rec).length →
+      (∃ r', BR.readRecordV2 ⟨Spec.RB.encRec rec ++ rest, remain⟩ = .error (.short, r')) ∧
+      Spec.RB.readRec ((Spec.RB.encRec rec ++ rest).take remain) = none) := by
+  obtain ⟨h1, h2⟩ := BR.readRecordV2_spec rec rest remain
+  refine ⟨fun hle => ⟨h1 hle, ?_⟩, fun hlt => ⟨h2 hlt, readRec_prefix rec rest remain hlt⟩⟩
+  rw [List.take_append, List.take_of_length_le hle]
+  exact Spec.RB.readRec_encRec rec _
+
+/-- `message_bytes`: key and value of a v0/v1 message (readMessageV1: `readBytesWith(key)`, `readBytesWith(val)` at or above
+`min`; `discardBytes` twice below it): with both inside what is left of the message set they are read (skipped) and
+exactly their bytes consumed; cut anywhere → errShortRead.  (The tokenizer asks for the whole body at once.) -/
+theorem message_bytes (m : Spec.RB.Msg) (hk : RW.InRange RW.M32 (Spec.RB.optLen m.key : Int))
+    (hv : RW.InRange RW.M32 (Spec.RB.optLen m.value : Int)) :
+    BR.AllOrShort BR.readBodyV1 (encB1 m) (m.key, m.value) ∧ BR.AllOrShort BR.skipBodyV1 (encB1 m) () :=
+  ⟨BR.readBodyV1_spec m hk hv, BR.skipBodyV1_spec m hk hv⟩
+
+/-! ### the decoder as the Go code is written (Model/PullReader.lean)
+
+`Pull.readAll` follows message_reader.go / batch.go statement by statement: the reader stack, `readHeader`, the loop over
+empty batches in `readMessage`, `readMessageV2` with the payload push, `markRead` / `unwindStack`, `(*Batch).readMessage`
+with its error switch, the skip loop of `(*Batch).ReadMessage`.  The token machine of Model/MessageSetReader.lean is the
+same computation organised by tokens instead of by calls. -/
+
+/-- `pull_eq_run`: on *any* token stream — v2 batch headers, records, compressed payloads, v0/v1 messages, wrappers, cut, in
+any order, well formed or not (only: a v0/v1 header token carries magic 0 or 1, `allWF`) — whenever the token machine
+does not report a desynchronisation the pull parser returns the same messages, the same conn offset and the same
+outcome.  The proof is a simulation: `Lemmas/PullReader.lean` `Rel` relates the reader stack of the Go code to a position
+of the token machine; `v1_loop` is `readMessageV1`'s `for r.readerStack != nil` loop (skip below `min`, wrapper push,
+pop of exhausted readers), `headerLoop_flat` the loop over empty batches, `call_any` one `(*Batch).readMessage`. -/
+theorem pull_eq_run (e : Bool) (o hwm : Int) (toks : List Tok) (hv : allWF toks)
+    (hnd : (readAll .fixed e o hwm toks).2.2 ≠ .desync) :
+    Pull.readAll e o hwm toks = readAll .fixed e o hwm toks :=
+  pull_eq_run_all e o hwm toks hv hnd
+
+/-- `single_fetch` for the pull parser: on every well-formed layout (v2 batches plain and compressed, v0/v1 messages and
+wrappers, mixed), any cut, any start offset, the code as written delivers exactly the completely contained records at
+or above the start offset, in increasing order, below the new position, and jumps over no stored record -/
+theorem single_fetch_pull (items : List Item) (nb : Int) (hnb : 0 ≤ nb) (hwf : LWF nb items) (o hwm : Int) (ho : 0 ≤ o)
+    (hsafe : Safe o items) (hne : hwm ≠ o) (cut : Int) (expired : Bool) :
+    let res := Pull.readAll expired o hwm (responseTokens items cut)
+    res.1 = (containedRecords items cut).filter (fun r => o ≤ r.1) ∧ res.2.2 ≠ .desync ∧
+    (∀ r ∈ allRecords items, o ≤ r.1 → r.1 < res.2.1 → r ∈ res.1) ∧
+    (∀ r ∈ res.1, r.1 < res.2.1) ∧
+    res.1.Pairwise (fun a b => a.1 < b.1) := by
+  have h := single_fetch items nb hnb hwf o hwm ho hsafe hne cut expired
+  have hv : allWF (responseTokens items cut) := by
+    unfold responseTokens
+    split
+    · exact allWF_tokens items nb hwf
+    · exact allWF_truncate _ _ (allWF_tokens items nb hwf)
+  rw [pull_eq_run expired o hwm _ hv h.2.1]
+  exact h
+
+/-- `single_fetch_bytes` for the pull parser: **bytes in, code as written** — the first `n` bytes of anything the reference
+encoder emits, tokenized, then read by the statement-level model of message_reader.go / batch.go -/
+theorem single_fetch_bytes_pull (c : TokCfg) (enc : Int → Bytes → Bytes) (hdec : ∀ k b, c.dec k (enc k b) = some b)
+    (hpos : ∀ k b, 0 < (enc k b).length) (h1 : ∀ b, c.crcs.ieee b < RW.M32) (h2 : ∀ b, c.crcs.castagnoli b < RW.M32)
+    (its : List BItem) (hitems : ∀ it ∈ its, it.WF c enc) (nb : Int) (hnb : 0 ≤ nb) (hwf : LWF nb (layoutOfItems c enc its))
+    (o hwm : Int) (ho : 0 ≤ o) (hsafe : Safe o (layoutOfItems c enc its)) (hne : hwm ≠ o) (expired : Bool) (n : Nat) :
+    let toks := tokenize c (n + 1) .hdr ((encItems c enc its).take n)
+    (Pull.readAll expired o hwm toks).1 = (contained (layoutOfItems c enc its) n).filter (fun r => o ≤ r.1) ∧
+    (Pull.readAll expired o hwm toks).2.2 ≠ .desync ∧
+    (∀ r ∈ allRecords (layoutOfItems c enc its), o ≤ r.1 → r.1 < (Pull.readAll expired o hwm toks).2.1 →
+      r ∈ (Pull.readAll expired o hwm toks).1) := by
+  have h := single_fetch_bytes c enc hdec hpos h1 h2 its hitems nb hnb hwf o hwm ho hsafe hne expired n
+  have hv : allWF (tokenize c (n + 1) .hdr ((encItems c enc its).take n)) := by
+    rw [tokenize_items c enc hdec hpos h1 h2 its hitems n (n + 1) (by omega)]
+    exact allWF_truncate _ _ (allWF_tokens _ nb hwf)
+  simp only at h ⊢
+  rw [pull_eq_run expired o hwm _ hv h.2.1]
+  exact h
 
 /-- observation (a), not a finding: *outside* the fetch contract — a response cut inside its first v2 batch — the
 records below the start offset that were read and skipped leave the position below it (103 → 102); a later complete
@@ -297,6 +418,189 @@ theorem out_of_range_counterexample :
     onAnswer .legacy { offset := 105, connOpen := true, connOff := 105 } 115 110 115 (.err 1)
       = .go { offset := 110, connOpen := true, connOff := 105 } := by rfl
 
+/-! ### the whole reconnect / backoff loop (Model/ReaderLoopLTS.lean: `rstep`, a total LTS)
+
+Events are the outcomes of the blocking calls of `(*reader).run`: the backoff sleeps (done / context cancelled),
+`initialize` (failed — dial, readOffsets, or Seek out of range — or succeeded with the partition's first/last offsets),
+and one `read`: a fetch round (`data`), a connection lost after a prefix of a response (`cutAfter`), a partition error of
+any code (with what the follow-up `readOffsets` says for OffsetOutOfRange), another I/O error, context.Canceled
+after a prefix of the round's messages had been handed on, errUnknownCodec.  `Good` restricts the environment only as far as §1–§2 prove it: a `data` event is a round as
+`fetch_round` describes it, a `cutAfter` event delivers an initial segment of the log from the conn offset
+(`single_fetch` on the bytes that arrived), and a reported first offset is not above a record that still exists. -/
+
+/-- `reader_loop_exactly_once`: for **every** event sequence — any interleaving of faults, retries, reconnects, backoff
+sleeps, leader changes (= failed reads followed by a new initialize), out-of-range resets — what the loop has pushed
+into `r.msgs` is strictly increasing (each record once, in order) and is exactly the stored records between the
+resolved start offset and the loop's `offset` (nothing missing, nothing else). -/
+theorem reader_loop_exactly_once (cfg : RCfg) (log : List Rec) (o0 : Int) (ho : -2 ≤ o0) (es : List REv)
+    (hg : GoodRun cfg log { offset := o0 } es) :
+    let s := rrun cfg { offset := o0 } es
+    s.msgs.Pairwise (fun a b => a.1 < b.1) ∧
+    (s.start = none → s.msgs = []) ∧
+    (∀ st, s.start = some st →
+      (∀ r ∈ s.msgs, r ∈ log ∧ st ≤ r.1 ∧ r.1 < s.offset) ∧ (∀ r ∈ log, st ≤ r.1 → r.1 < s.offset → r ∈ s.msgs)) := by
+  have h := rinv_run cfg log es _ (rinv_init log o0 ho) hg
+  exact ⟨h.sorted, fun h0 => (h.nostart h0).1, fun st hst => ⟨(h.bounds st hst).2.2.1, (h.bounds st hst).2.2.2⟩⟩
+
+/-- `restart_offset`, general form: whenever the loop holds a connection — after any history of faults — that
+connection is positioned (`connOff`) at or after `offset`, everything delivered lies below `offset`, every stored
+record from the start offset below it has been delivered, and no stored record lies between `offset` and the
+connection's position: the next fetch can neither repeat nor skip a record. -/
+theorem restart_offset_general (cfg : RCfg) (log : List Rec) (o0 : Int) (ho : -2 ≤ o0) (es : List REv)
+    (hg : GoodRun cfg log { offset := o0 } es) (hr : (rrun cfg { offset := o0 } es).phase = .reading) :
+    let s := rrun cfg { offset := o0 } es
+    s.offset ≤ s.connOff ∧ (∀ r ∈ s.msgs, r.1 < s.offset) ∧ (∀ r ∈ log, s.offset ≤ r.1 → r.1 < s.connOff → False) := by
+  have h := rinv_run cfg log es _ (rinv_init log o0 ho) hg
+  obtain ⟨hst, h1, h2⟩ := h.conn hr
+  refine ⟨h1, ?_, h2⟩
+  intro r hr'
+  cases hs : (rrun cfg { offset := o0 } es).start with
+  | none => exact absurd hs hst
+  | some st => exact ((h.bounds st hs).2.2.1 r hr').2.2
+
+/-- a successful `initialize` positions the new connection exactly at `offset` (after clamping to the first offset) -/
+theorem initialize_seeks_offset (cfg : RCfg) (s : RR) (first last : Int) (hp : s.phase = .top)
+    (hs : s.attempt = 0 ∨ s.slept = true) (hle : resolve s.offset first last ≤ last) :
+    (rstep cfg s (.initOk first last)).phase = .reading ∧
+    (rstep cfg s (.initOk first last)).connOff = resolve s.offset first last ∧
+    (rstep cfg s (.initOk first last)).offset = resolve s.offset first last := by
+  have hgt : ¬ resolve s.offset first last > last := by omega
+  rcases hs with h | h <;> simp [rstep, hp, h, hgt]
+
+/-- totality: every event is accepted in every state (`rstep` is a function), and a stopped loop stays stopped -/
+theorem reader_loop_stopped (cfg : RCfg) (s : RR) (hp : s.phase = .stopped) (es : List REv) : rrun cfg s es = s := by
+  induction es with
+  | nil => rfl
+  | cons e es ih => simp [rrun, rstep, hp, ih]
+
+/-- the hypotheses are met by a run with a lost connection and a re-initialisation -/
+example : GoodRun {} [(3, 1), (4, 2), (7, 3)] { offset := -2 }
+    [.initOk 3 8, .sleepOk, .data [(3, 1)] 4 .eof, .sleepOk, .cutAfter [(4, 2)], .sleepOk, .initOk 3 8, .sleepOk,
+     .data [(7, 3)] 8 .timedOut] ∧
+    (rrun {} { offset := -2 }
+    [.initOk 3 8, .sleepOk, .data [(3, 1)] 4 .eof, .sleepOk, .cutAfter [(4, 2)], .sleepOk, .initOk 3 8, .sleepOk,
+     .data [(7, 3)] 8 .timedOut]).msgs = [(3, 1), (4, 2), (7, 3)] := by
+  refine ⟨?_, by decide⟩
+  simp only [GoodRun, Good, rstep, toTop, again, pushMsgs, resolve, and_true, true_and]
+  refine ⟨by simp, ⟨⟨by simp, by simp, ?_, by simp⟩, by simp⟩, ⟨by simp, by simp, ?_⟩, by simp, ⟨by simp, by simp, ?_, by simp⟩, by simp⟩
+  · intro r hr; simp at hr ⊢; rcases hr with rfl | rfl | rfl <;> simp
+  · intro r hr x hx; simp at hr hx ⊢; subst hx; rcases hr with rfl | rfl | rfl <;> simp
+  · intro r hr; simp at hr ⊢; rcases hr with rfl | rfl | rfl <;> simp
+
+/-! ### end to end: the loop, the broker, the bytes, the decoder as written
+
+`Model/ReaderWorld.lean` computes the outcomes of the `read` calls instead of assuming them: the partition stores the
+layout `items`; a fetch at conn offset `q` is answered under the fetch contract (`serve`: the items from the one
+containing `q`, the first one whole, then as far as the byte budget reaches) or the connection is lost after any number
+`n` of bytes; what arrives is read by the statement-level model of message_reader.go / batch.go (`Pull.readAll`); the
+result is the event fed to `rstep`.  All other events (sleeps, initialize, partition errors, I/O errors, cancellation)
+stay free.  The one assumption left (`Env.ok`): a first offset reported by the broker is not above a stored record. -/
+
+/-- `reader_end_to_end`: for every well-formed layout (formats 0/1/2, compression, holes, empty batches), every start
+offset and **every** sequence of environment moves — byte budgets, high watermarks, deadline expiries, connections lost
+at any byte, partition errors, reconnects, backoff sleeps — what `(*reader).run` has pushed into `r.msgs` is strictly
+increasing and is exactly the stored records between the resolved start offset and the loop's `offset`. -/
+theorem reader_end_to_end (cfg : RCfg) (items : List Item) (nb : Int) (hnb : 0 ≤ nb) (hwf : LWF nb items) (o0 : Int)
+    (ho : -2 ≤ o0) (xs : List Env) (hx : ∀ x ∈ xs, x.ok items) :
+    let s := worldRun cfg items { offset := o0 } xs
+    s.msgs.Pairwise (fun a b => a.1 < b.1) ∧
+    (s.start = none → s.msgs = []) ∧
+    (∀ st, s.start = some st →
+      (∀ r ∈ s.msgs, r ∈ allRecords items ∧ st ≤ r.1 ∧ r.1 < s.offset) ∧
+      (∀ r ∈ allRecords items, st ≤ r.1 → r.1 < s.offset → r ∈ s.msgs)) := by
+  have h := rinv_world_run cfg items nb hnb hwf xs _ (rinv_init (allRecords items) o0 ho) hx
+  exact ⟨h.sorted, fun h0 => (h.nostart h0).1, fun st hst => ⟨(h.bounds st hst).2.2.1, (h.bounds st hst).2.2.2⟩⟩
+
+/-- … and whenever the loop holds a connection whose position has passed the last stored record, every stored record
+from the start offset on has been delivered (nothing can still be skipped): `offset ≤ connOff` with no stored record
+in between -/
+theorem reader_end_to_end_complete (cfg : RCfg) (items : List Item) (nb : Int) (hnb : 0 ≤ nb) (hwf : LWF nb items) (o0 : Int)
+    (ho : -2 ≤ o0) (xs : List Env) (hx : ∀ x ∈ xs, x.ok items)
+    (hr : (worldRun cfg items { offset := o0 } xs).phase = .reading)
+    (hall : ∀ r ∈ allRecords items, r.1 < (worldRun cfg items { offset := o0 } xs).connOff) :
+    ∀ st, (worldRun cfg items { offset := o0 } xs).start = some st →
+      ∀ r ∈ allRecords items, st ≤ r.1 → r ∈ (worldRun cfg items { offset := o0 } xs).msgs := by
+  have h := rinv_world_run cfg items nb hnb hwf xs _ (rinv_init (allRecords items) o0 ho) hx
+  intro st hst r hrl h1
+  obtain ⟨_, _, hgap⟩ := h.conn hr
+  by_cases hlt : r.1 < (worldRun cfg items { offset := o0 } xs).offset
+  · exact (h.bounds st hst).2.2.2 r hrl h1 hlt
+  · exact absurd (hgap r hrl (by omega) (hall r hrl)) id
+
+/-- one fetch of the loop makes progress: with an open connection, data at or after its position and a high watermark
+different from it, the connection's position moves forward (so finitely many fault-free fetches pass any record) -/
+theorem reader_end_to_end_progress (cfg : RCfg) (items : List Item) (nb : Int) (hnb : 0 ≤ nb) (hwf : LWF nb items) (s : RR)
+    (hp : s.phase = .reading) (hs : s.slept = true) (hq : 0 ≤ s.connOff) (b : Nat) (hwm : Int) (e : Bool)
+    (hne : hwm ≠ s.connOff) (hdata : dropBefore s.connOff items ≠ []) :
+    s.connOff < (rstep cfg s (worldEvent items s (.fetch b hwm e))).connOff :=
+  world_fetch_progress cfg items nb hnb hwf s hp hs hq b hwm e hne hdata
+
+/-- `reader_loop_is_fetcher`: the front model (§4, `fstep`) lets the fetcher started by `SetOffset(o)` enqueue, as its
+`k`-th message, `(feed log o)[k]` — the `k`-th stored record at or above `o`.  The loop does exactly that, end to end:
+started at an absolute offset or at FirstOffset, under every environment, the `k`-th message it pushes into `r.msgs` is
+the `k`-th stored record at or above the start offset.  (For LastOffset the start is whatever the broker reports as
+last offset; `reader_end_to_end` covers it.) -/
+theorem reader_loop_is_fetcher (cfg : RCfg) (items : List Item) (nb : Int) (hnb : 0 ≤ nb) (hwf : LWF nb items) (o0 : Int)
+    (ho : -2 ≤ o0) (hne : o0 ≠ -1) (xs : List Env) (hx : ∀ x ∈ xs, x.ok items) (k : Nat) (r : Rec)
+    (hk : (worldRun cfg items { offset := o0 } xs).msgs[k]? = some r) :
+    (feed (allRecords items) o0)[k]? = some r := by
+  obtain ⟨t, ht⟩ := world_msgs_prefix cfg items nb hnb hwf o0 ho hne xs hx
+  rw [← ht]
+  have hlt : k < (worldRun cfg items { offset := o0 } xs).msgs.length := by
+    rcases Nat.lt_or_ge k (worldRun cfg items { offset := o0 } xs).msgs.length with h | h
+    · exact h
+    · rw [List.getElem?_eq_none h] at hk; cases hk
+  rw [List.getElem?_append_left hlt]
+  exact hk
+
+/-- `reader_no_starvation` (the defects D3, D4/D14, D15 of the pinned code were all of this kind: the loop alive, fetching,
+and never getting past a point of the log): after **any** history, whenever the loop holds a connection, `k` fault-free
+rounds (backoff sleep, fetch — any byte budgets, deadline passed or not, high watermark above the log) with `k` at least
+the number of stored batches / messages (in particular `k ≥ |items|`) leave every stored record from the start offset
+on pushed into `r.msgs`. -/
+theorem reader_no_starvation (cfg : RCfg) (items : List Item) (nb : Int) (hnb : 0 ≤ nb) (hwf : LWF nb items) (hwm : Int)
+    (hh : ∀ it ∈ items, it.last < hwm) (o0 : Int) (ho : -2 ≤ o0) (xs : List Env) (hx : ∀ x ∈ xs, x.ok items)
+    (hr : (worldRun cfg items { offset := o0 } xs).phase = .reading) (moves : List (Nat × Bool))
+    (hk : items.length ≤ moves.length) :
+    let s := worldRun cfg items (worldRun cfg items { offset := o0 } xs)
+      (moves.flatMap fun m => [Env.sleepOk, Env.fetch m.1 hwm m.2])
+    ∃ st, s.start = some st ∧ ∀ r ∈ allRecords items, st ≤ r.1 → r ∈ s.msgs := by
+  have h := rinv_world_run cfg items nb hnb hwf xs _ (rinv_init (allRecords items) o0 ho) hx
+  exact catch_up cfg items nb hnb hwf hwm hh moves _ h
+    (Or.inr ⟨hr, Nat.le_trans (dropBefore_length_le _ items) hk⟩)
+
+/-- a run with a connection lost in the middle of a compressed batch and a re-initialisation -/
+example : (worldRun {} [.b2 3 4 false 24 [(0, 1, 12), (1, 2, 12)], .b2 5 9 true 30 [(0, 3, 20), (4, 4, 20)]] { offset := -2 }
+    [.initOk 3 10, .sleepOk, .fetch 10 10 false, .sleepOk, .lost 70 10 false, .sleepOk, .initOk 3 10, .sleepOk,
+     .fetch 1 10 true]).msgs = [(3, 1), (4, 2), (5, 3), (9, 4)] := by decide
+
+/-! ### the executable loop model of the oracle (Model/ReaderLoop.lean `onAnswer`) is this LTS
+
+`toRL` forgets the counters; each broker `Answer` is one event of the LTS. -/
+
+def toRL (s : RR) : RL :=
+  { offset := s.offset, connOpen := s.phase == .reading, connOff := s.connOff, out := s.msgs }
+
+theorem onAnswer_data (cfg : RCfg) (s : RR) (hp : s.phase = .reading) (hs : s.slept = true) (hwm first last : Int)
+    (toks : List Tok) (hok : (readAll .fixed false s.connOff hwm toks).2.2 ≠ .desync) :
+    onAnswer .fixed (toRL s) hwm first last (.data toks)
+      = .go (toRL (rstep cfg s (.data (readAll .fixed false s.connOff hwm toks).1 (readAll .fixed false s.connOff hwm toks).2.1
+          (readAll .fixed false s.connOff hwm toks).2.2))) := by
+  simp only [onAnswer, toRL, rstep, hp, hs, Bool.not_true, Bool.false_eq_true, if_false]
+  cases hoc : (readAll .fixed false s.connOff hwm toks).2.2 <;>
+    simp_all [deliver, pushMsgs, again, toTop] <;>
+    (cases hgl : (readAll .fixed false s.connOff hwm toks).1.getLast? <;> rfl)
+
+theorem onAnswer_faults (cfg : RCfg) (s : RR) (hp : s.phase = .reading) (hs : s.slept = true) (hwm first last : Int) :
+    onAnswer .fixed (toRL s) hwm first last (.err 6) = .go (toRL (rstep cfg s (.kerr 6 none))) ∧
+    onAnswer .fixed (toRL s) hwm first last (.err 3) = .go (toRL (rstep cfg s (.kerr 3 none))) ∧
+    onAnswer .fixed (toRL s) hwm first last (.err 7) = .go (toRL (rstep cfg s (.kerr 7 none))) ∧
+    onAnswer .fixed (toRL s) hwm first last .hang = .go (toRL (rstep cfg s .ioErr)) ∧
+    (s.offset < first →
+      onAnswer .fixed (toRL s) hwm first last (.err 1) = .go (toRL (rstep cfg s (.kerr 1 (some (first, last)))))) := by
+  refine ⟨?_, ?_, ?_, ?_, ?_⟩ <;>
+    simp [onAnswer, toRL, rstep, onKerr, hp, hs, toTop, again] <;> intro h <;> simp [h]
+
 /-! ## 4. The Reader's front (FetchMessage / SetOffset / version tags) -/
 
 theorem dropWhile_filter_head (q : List (Nat × Rec)) (v : Nat) :
@@ -408,5 +712,66 @@ one enqueues; FetchMessage skips the three stale entries -/
 example : (frun [(10, 0), (11, 1), (12, 2), (13, 3)] {}
     [.setOffset 10, .enqueue 1, .enqueue 1, .setOffset 12, .enqueue 1, .enqueue 2, .fetch]).map (·.2) = some [(12, 2)] := by
   decide
+
+
+/-! ## 5. The whole Reader (Model/ReaderSystem.lean)
+
+The front of §4 with, instead of abstract fetchers, one loop of §3 per fetcher ever started, each against the world of
+`Model/ReaderWorld.lean` (broker under the fetch contract, connections lost at any byte, deadlines, partition errors,
+backoff) and the decoder as written; what a loop pushes goes into the queue with the loop's version tag.  Events:
+`SetOffset(o)` (also the lazy start), a blocking call of any fetcher's loop — current or superseded — returning with
+whatever the world does, `FetchMessage`. -/
+
+/-- every reachable state of the system satisfies the invariant the theorems below start from -/
+theorem reader_reachable (cfg : RCfg) (items : List Item) (nb : Int) (hnb : 0 ≤ nb) (hwf : LWF nb items) (es : List CEv)
+    (hok : ∀ e ∈ es, e.ok items) (c : CS) (ms : List Rec) (hr : crun cfg items {} es = some (c, ms)) : CInv items c :=
+  (crun_sim cfg items nb hnb hwf es {} c ms (cinv_init items) hok hr).1
+
+/-- **C02**: in any reachable state of the Reader, after `SetOffset(o)` (an absolute offset or FirstOffset) the
+messages the following `FetchMessage` calls return are — in order, without gap or repetition — the stored records at or
+above `o`: `ms = take |ms| (feed log o)`.  For every well-formed layout of the partition (formats 0/1/2, compression,
+holes, empty batches), every interleaving of FetchMessage with the loops' steps, every behaviour of broker (under the
+fetch contract), network and clock, whatever the superseded fetchers still do and whatever is still queued. -/
+theorem reader_delivers (cfg : RCfg) (items : List Item) (nb : Int) (hnb : 0 ≤ nb) (hwf : LWF nb items) (c0 c' : CS)
+    (h0 : CInv items c0) (o : Int) (ho : -2 ≤ o ∧ o ≠ -1) (es : List CEv) (hok : ∀ e ∈ es, e.ok items)
+    (hns : ∀ e ∈ es, e.notSet) (ms : List Rec) (hr : crun cfg items c0 (.setOffset o :: es) = some (c', ms)) :
+    ms = (feed (allRecords items) o).take ms.length := by
+  obtain ⟨es', hn, hf⟩ := crun_after_set cfg items nb hnb hwf c0 c' h0 o ho es hok hns ms hr
+  exact setoffset_delivers (allRecords items) c0.fs c'.fs h0.finv o es' hn ms hf
+
+/-- … from the very start: a Reader configured with start offset `o` -/
+theorem reader_delivers_from_start (cfg : RCfg) (items : List Item) (nb : Int) (hnb : 0 ≤ nb) (hwf : LWF nb items) (c' : CS)
+    (o : Int) (ho : -2 ≤ o ∧ o ≠ -1) (es : List CEv) (hok : ∀ e ∈ es, e.ok items) (hns : ∀ e ∈ es, e.notSet)
+    (ms : List Rec) (hr : crun cfg items {} (.setOffset o :: es) = some (c', ms)) :
+    ms = (feed (allRecords items) o).take ms.length :=
+  reader_delivers cfg items nb hnb hwf {} c' (cinv_init items) o ho es hok hns ms hr
+
+/-- a run of the whole system: start at FirstOffset, a fetch round, SetOffset(5) while two messages are queued, the
+superseded loop still pushes a round, the new one starts inside the compressed batch; FetchMessage returns 5, 9 -/
+example : (crun {} [.b2 3 4 false 24 [(0, 1, 12), (1, 2, 12)], .b2 5 9 true 30 [(0, 3, 20), (4, 4, 20)]] {}
+    [.setOffset (-2), .env 1 (.initOk 3 10), .env 1 .sleepOk, .env 1 (.fetch 10 10 false), .setOffset 5,
+     .env 1 .sleepOk, .env 1 (.fetch 1000 10 false), .env 2 (.initOk 3 10), .env 2 .sleepOk, .env 2 (.fetch 10 10 true),
+     .fetch, .fetch]).map (·.2) = some [(5, 3), (9, 4)] := by decide
+
+
+/-- **the sequential specification of the Reader's API** (`astep`: `Offset()` is `pos`; `SetOffset(o)` does nothing when
+`o == Offset()`, else moves `Offset()` and — if a fetcher was ever started — restarts; `FetchMessage` lazily starts the
+first fetcher at `Offset()`): in every reachable state, whatever the loops, the broker, the network and the superseded
+fetchers have done and do,
+* `FetchMessage` returns **the first stored record at or above `Offset()`**, and `Offset()` becomes its offset + 1;
+* `SetOffset(o)` makes `Offset() = o`, a step of a loop leaves it alone.
+Exactly-once, in-order, gap-free delivery from the position is the iteration of the first clause. -/
+theorem reader_api (cfg : RCfg) (items : List Item) (nb : Int) (hnb : 0 ≤ nb) (hwf : LWF nb items) (o : Int)
+    (ho : -2 ≤ o ∧ o ≠ -1) (es : List AEv) (hok : ∀ e ∈ es, e.ok items) (a : AS) (ms : List Rec)
+    (hr : arun cfg items { pos := o } es = some (a, ms)) (e : AEv) (he : e.ok items) (a' : AS) (m : Option Rec)
+    (hs : astep cfg items a e = some (a', m)) : ASpec items a e a' m :=
+  (astep_inv cfg items nb hnb hwf (arun_inv cfg items nb hnb hwf es _ a ms (ainv_init items o ho) hok hr) he hs).2
+
+/-- a run of the API: lazy start at FirstOffset, two messages, a no-op SetOffset(5) (= Offset()), SetOffset(9), the last
+message -/
+example : (arun {} [.b2 3 4 false 24 [(0, 1, 12), (1, 2, 12)], .b2 5 9 true 30 [(0, 3, 20), (4, 4, 20)]] { pos := -2 }
+    [.fetch, .env 1 (.initOk 3 10), .env 1 .sleepOk, .env 1 (.fetch 10 10 false), .fetch, .fetch, .setOffset 5,
+     .env 1 .sleepOk, .env 1 (.fetch 1000 10 false), .setOffset 9, .env 2 (.initOk 3 10), .env 2 .sleepOk,
+     .env 2 (.fetch 10 10 true), .fetch]).map (fun p => (p.2, p.1.pos)) = some ([(3, 1), (4, 2), (9, 4)], 10) := by decide
 
 end KV.C02
